@@ -972,20 +972,18 @@ func TestVerifC41Group(t *testing.T) {
 	twoChan := [2][][]string{{{"aa", "ab"}, {"ac"}}, {{"ba"}, {"bb"}}}
 	oneEach := [2][][]string{{{"aa"}, {"ab"}}, {{"ba"}}}
 	if thorough {
+		add("two", c29bCfg{scripts: twoChan, stop: "stop-cancelled", gate: 1, atomics: true, bound: 2})
+		add("park-append", c29bCfg{scripts: oneEach, stop: "stop-timeout", parkAppend: true, atomics: true, bound: 2})
+		add("router", c29bCfg{router: true, scripts: [2][][]string{{{"aa", "bb"}}, {{"ab", "ba"}}}, slow: true, stop: "stop", gate: 1, postCommit: true, bound: 2})
 		for _, adv := range []int{1, 2} {
-			add("two", c29bCfg{scripts: twoChan, advance: adv, effect: adv, stop: "stop", bound: 3})
 			add("two", c29bCfg{scripts: twoChan, advance: adv, effect: adv, slow: true, stop: "stop", gate: 2, postCommit: true, bound: 2})
 			add("two", c29bCfg{scripts: twoChan, advance: adv, effect: adv, slow: true, stop: "stop-timeout", gate: 1, postCommit: true, bound: 2})
 			add("park-append", c29bCfg{scripts: oneEach, advance: adv, effect: adv, stop: "stop-timeout", parkAppend: true, postCommit: true, bound: 2})
 			add("park-post-commit", c29bCfg{scripts: oneEach, advance: adv, effect: adv, stop: "stop-timeout", parkPersist: true, postCommit: true, bound: 2})
+			add("two", c29bCfg{scripts: twoChan, advance: adv, effect: adv, stop: "stop", bound: 3})
 		}
 		add("two", c29bCfg{scripts: twoChan, slow: true, stop: "stop-cancelled", gate: 1, bound: 3})
 		add("two", c29bCfg{scripts: twoChan, advance: 2, effect: 2, stop: "stop-timeout", gate: 1, bound: 3})
-		add("park-append", c29bCfg{scripts: oneEach, stop: "stop-timeout", parkAppend: true, postCommit: true, bound: 3})
-		add("park-post-commit", c29bCfg{scripts: oneEach, advance: 2, effect: 2, stop: "stop-timeout", parkPersist: true, postCommit: true, bound: 3})
-		add("two", c29bCfg{scripts: twoChan, stop: "stop-cancelled", gate: 1, atomics: true, bound: 2})
-		add("park-append", c29bCfg{scripts: oneEach, stop: "stop-timeout", parkAppend: true, atomics: true, bound: 2})
-		add("router", c29bCfg{router: true, scripts: [2][][]string{{{"aa", "bb"}}, {{"ab", "ba"}}}, slow: true, stop: "stop", gate: 1, postCommit: true, bound: 2})
 	} else {
 		add("two", c29bCfg{scripts: twoChan, slow: true, stop: "stop", gate: 1, postCommit: true, bound: 2})
 		add("two", c29bCfg{scripts: twoChan, slow: true, stop: "stop-timeout", gate: 1, bound: 2})
